@@ -665,6 +665,20 @@ func c11(r *Report) {
 					nilLeaf = true
 				}
 			}
+			if nilLeaf {
+				// a nil among the values may belong to a path that cannot reach the call (the
+				// nil result a decoder returns together with its error): decide per path
+				if paths, okp := blockPathsUntil(ad.Blocks[0], c.Block(), 20000); okp {
+					nilLeaf = false
+					for _, p := range paths {
+						for _, l := range resolveOnPath(cc.Args[0], p) {
+							if isNilConst(l) {
+								nilLeaf = true
+							}
+						}
+					}
+				}
+			}
 			r.Decide("flow", "(*M/h2/grpc.adapter).Data: a message handed to the processor is never the nil slice", !nilLeaf, "every value the message can take is an allocated slice or a decoder result", "a message (e.g. a zero-length one) can reach the processor as nil, the marker of a message-less end of stream: it is dropped, and with it the message count the peer sees", c.Pos())
 		}
 		// adapter: the only nil message is the bare end of stream (empty buffer and streamEnded)
